@@ -79,7 +79,7 @@ def do_case(ctx, inp):
 
 def run(ctx):
     rng = ctx.rng
-    n = (120 if ctx.quick else 1500) * (3 if ctx.search else 1)
+    n = (300 if ctx.quick else 1500) * (3 if ctx.search else 1)
     for _ in range(n):
         a, o, t = valid_configurator(rng, ctx.quick)
         names = sorted(leaves_of(t)) + [c for c in compound_ids(t) if not c.startswith("VAR")]
